@@ -24,7 +24,7 @@ func init() {
 	Register(&Prop{
 		ID:    "C08",
 		Title: "A multi-dimensional FROM applies the query inside every inner array",
-		Rule: "rapid draws a document key holding arrays of arrays of objects (depth 2-3, ragged, empty inner arrays), a select list (columns, " +
+		Rule: "rapid draws a document key holding arrays of arrays of objects (depth 2-3, ragged, empty inner arrays, a fifth of the documents with levels of 4-13 inner arrays), a select list (columns, " +
 			"simple expressions, optional *), an optional WHERE and, in half of the cases, a back reference to siblings of the source in the enclosing " +
 			"document (`<-.lim` in a comparison, IN / [NOT] EXISTS / select-item subqueries over `<-allow`); oracle: the result has the same nesting and each leaf array's result equals the " +
 			"execution of the same query on the document with that leaf in place of nn; FROM `mix=>nn` equals the concatenation of the leaf results in order. Non-trivial: >=2 " +
